@@ -178,7 +178,7 @@ SetItem(t, ix, y) ==      \* new tensor or Reject
       [] ix.k = "rowslice" -> IF Rows(y) \in {0, 1} /\ Cols(y) \in {0, 1, ix.hi - ix.lo}
                           THEN T2([t.e EXCEPT ![ix.i] = [j \in 1..Cols(t) |-> IF j > ix.lo /\ j <= ix.hi
                                                            THEN Store(t.b, y, 1, j - ix.lo) ELSE t.e[ix.i][j]]], t.b) ELSE Reject
-      [] ix.k = "col"  -> IF y.nd <= 1 /\ Cols(y) \in {0, 1, Rows(t)}
+      [] ix.k = "col"  -> IF (y.nd <= 1 \/ Rows(y) = 1) /\ Cols(y) \in {0, 1, Rows(t)}
                           THEN T2([i \in 1..Rows(t) |-> [t.e[i] EXCEPT ![ix.j] = Store(t.b, y, 1, i)]], t.b) ELSE Reject
       [] ix.k = "all"  -> IF Rows(y) \in {0, 1, Rows(t)} /\ Cols(y) \in {0, 1, Cols(t)}
                           THEN T2([i \in 1..Rows(t) |-> [j \in 1..Cols(t) |-> Store(t.b, y, i, j)]], t.b) ELSE Reject
@@ -186,11 +186,11 @@ SetItem(t, ix, y) ==      \* new tensor or Reject
                           THEN T2([i \in 1..Rows(t) |-> IF \E k \in DOMAIN ix.idx : ix.idx[k] = i
                                      THEN [j \in 1..Cols(t) |-> Store(t.b, y, CHOOSE k \in DOMAIN ix.idx : ix.idx[k] = i, j)]
                                      ELSE t.e[i]], t.b) ELSE Reject
-      [] ix.k = "rowscol" -> IF y.nd <= 1 /\ Cols(y) \in {0, 1, Len(ix.idx)}
+      [] ix.k = "rowscol" -> IF (y.nd <= 1 \/ Rows(y) = 1) /\ Cols(y) \in {0, 1, Len(ix.idx)}
                           THEN T2([i \in 1..Rows(t) |-> IF \E k \in DOMAIN ix.idx : ix.idx[k] = i
                                      THEN [t.e[i] EXCEPT ![ix.j] = Store(t.b, y, 1, CHOOSE k \in DOMAIN ix.idx : ix.idx[k] = i)]
                                      ELSE t.e[i]], t.b) ELSE Reject
-      [] ix.k = "cells" -> IF y.nd <= 1 /\ Cols(y) \in {0, 1, Len(ix.idx)}
+      [] ix.k = "cells" -> IF (y.nd <= 1 \/ Rows(y) = 1) /\ Cols(y) \in {0, 1, Len(ix.idx)}
                           THEN T2([i \in 1..Rows(t) |-> [j \in 1..Cols(t) |->
                                      IF \E k \in DOMAIN ix.idx : ix.idx[k] = i /\ ix.jdx[k] = j
                                      THEN Store(t.b, y, 1, CHOOSE k \in DOMAIN ix.idx : ix.idx[k] = i /\ ix.jdx[k] = j)
